@@ -199,7 +199,8 @@ impl<W: 'static, R: 'static, T: 'static> XGenerator<W, R, T> {
             Self::Slice(gen, start, end) => either_g({
                 let inner: BIter<_, _, _> = Box::new(to_native!(gen, Self)._iter(ns, rt));
                 if let Some(end) = end {
-                    Either::Left(inner.skip(*start).take(*end))
+                    // `end` is an index into the sliced generator, not a count
+                    Either::Left(inner.skip(*start).take(end.saturating_sub(*start)))
                 } else {
                     Either::Right(inner.skip(*start))
                 }
